@@ -233,6 +233,58 @@ fn run_threads(j: &Value) -> Value {
     json!({"r": "ok", "results": out})
 }
 
+/// Concurrent file builds: the files are written once, then every `mains` entry (absolute paths, no
+/// chdir) is built `reps` times in a thread of its own; the distinct results per thread are reported.
+fn run_fthreads(j: &Value) -> Value {
+    let root = PathBuf::from(s(j, "root"));
+    if let Some(files) = j.get("files").and_then(|v| v.as_object()) {
+        for (rel, text) in files {
+            let p = root.join(rel);
+            if let Some(parent) = p.parent() {
+                let _ = std::fs::create_dir_all(parent);
+            }
+            if std::fs::write(&p, text.as_str().unwrap_or("")).is_err() {
+                return json!({"r": "tool", "text": format!("cannot write {:?}", p)});
+            }
+        }
+    }
+    let reps = j.get("reps").and_then(|v| v.as_u64()).unwrap_or(1);
+    let paths: BTreeSet<PathBuf> = j
+        .get("paths")
+        .and_then(|v| v.as_array())
+        .map(|a| a.iter().map(|p| root.join(p.as_str().unwrap_or(""))).collect())
+        .unwrap_or_default();
+    let mains: Vec<PathBuf> = j
+        .get("mains")
+        .and_then(|v| v.as_array())
+        .map(|a| a.iter().map(|p| root.join(p.as_str().unwrap_or(""))).collect())
+        .unwrap_or_default();
+    let handles: Vec<_> = mains
+        .into_iter()
+        .map(|main| {
+            let paths = paths.clone();
+            std::thread::spawn(move || {
+                let mut distinct: Vec<Value> = vec![];
+                for _ in 0..reps {
+                    let r = result_json(catch_unwind(AssertUnwindSafe(|| build_file(main.clone(), paths.clone()))));
+                    if !distinct.contains(&r) {
+                        distinct.push(r);
+                    }
+                }
+                distinct
+            })
+        })
+        .collect();
+    let out: Vec<Value> = handles
+        .into_iter()
+        .map(|h| match h.join() {
+            Ok(d) => Value::Array(d),
+            Err(_) => json!([{"r": "panic", "text": "thread died"}]),
+        })
+        .collect();
+    json!({"r": "ok", "results": out})
+}
+
 /// Stage-gated build: the four public stage functions, with a turn taken before each.
 struct GateState {
     pos: usize,
@@ -428,6 +480,30 @@ fn run_devices() -> Value {
     json!({"r": "ok", "devices": rows})
 }
 
+fn dispatch(j: &Value) -> Value {
+    match s(j, "k").as_str() {
+        "str" => {
+            if j.get("nohex").and_then(|v| v.as_bool()).unwrap_or(false) {
+                run_str_lens(&s(j, "src"))
+            } else {
+                run_str(&s(j, "src"))
+            }
+        }
+        "file" => run_file(j),
+        "trace" => run_trace(j),
+        "hex" => run_hex(j),
+        "seq" => run_seq(j),
+        "threads" => run_threads(j),
+        "fthreads" => run_fthreads(j),
+        "sched" => run_sched(j),
+        "stages" => run_stages(j),
+        "ping" => json!({"r": "ok"}),
+        "devices" => run_devices(),
+        "product" => run_product(j),
+        other => json!({"r": "tool", "text": format!("unknown job kind {}", other)}),
+    }
+}
+
 fn main() {
     std::panic::set_hook(Box::new(|_| {}));
     let args: Vec<String> = std::env::args().collect();
@@ -456,25 +532,16 @@ fn main() {
             }
         }
         let t0 = std::time::Instant::now();
-        let mut r = match s(&j, "k").as_str() {
-            "str" => {
-                if j.get("nohex").and_then(|v| v.as_bool()).unwrap_or(false) {
-                    run_str_lens(&s(&j, "src"))
-                } else {
-                    run_str(&s(&j, "src"))
-                }
+        // "stack": n -- the job runs in a thread with an n-byte stack (a library user's worker thread)
+        let stack = j.get("stack").and_then(|v| v.as_u64()).unwrap_or(0) as usize;
+        let mut r = if stack > 0 {
+            let jj = j.clone();
+            match std::thread::Builder::new().stack_size(stack).spawn(move || dispatch(&jj)) {
+                Ok(h) => h.join().unwrap_or_else(|_| json!({"r": "panic", "text": "thread died"})),
+                Err(e) => json!({"r": "tool", "text": format!("cannot spawn: {}", e)}),
             }
-            "file" => run_file(&j),
-            "trace" => run_trace(&j),
-            "hex" => run_hex(&j),
-            "seq" => run_seq(&j),
-            "threads" => run_threads(&j),
-            "sched" => run_sched(&j),
-            "stages" => run_stages(&j),
-            "ping" => json!({"r": "ok"}),
-            "devices" => run_devices(),
-            "product" => run_product(&j),
-            other => json!({"r": "tool", "text": format!("unknown job kind {}", other)}),
+        } else {
+            dispatch(&j)
         };
         if watchdog > 0 {
             unsafe {
